@@ -3,6 +3,9 @@ run_name='__main__', so the module's own `if __name__ == '__main__'` block decid
 for `python -m replicat`), after installing the fault rules of the environment variable VERIF_INJECT.
 
 A rule is {"fn": "replace"|"unlink"|"scandir"|"tempfile", "k": n, "when": "before"|"after", "action": "kill"|<errno name>},
+or {"fn": "scandir_iter", "k": n, "after": m, "action": <errno name>}: the n-th directory scan fails in the middle, after it has produced m entries,
+or {"fn": "unlink"|"replace"|"read", "path_contains": s, "action": <errno name>}: every such call on a path that contains s fails (a
+permanent refusal: a write-protected or unreadable object),
 or {"fn": "slow_loop_close", "seconds": s}: the event loop takes s seconds longer between its last iteration and its close (a slow
 machine at that instant; worker threads that ask the loop for something in that window are the schedule of interest),
 or {"fn": "slow_read", "seconds": s}: every whole-file read inside the repository takes s seconds longer (a slow disk),
@@ -78,10 +81,14 @@ def _install(rules, root):
             return False
         return q == root or q.startswith(root + os.sep)
 
-    def fire(fn, when):
+    def fire(fn, when, paths=()):
         idx = counters.get((fn, when), 0)
         counters[(fn, when)] = idx + 1
         for r in rules:
+            if r['fn'] == fn and 'path_contains' in r:
+                if when == 'before' and any(r['path_contains'] in os.fspath(x) for x in paths if isinstance(x, (str, os.PathLike))):
+                    raise OSError(getattr(errno, r['action']), 'injected ' + r['action'])
+                continue
             if r['fn'] == fn and r.get('when', 'before') == when and r['k'] == idx:
                 if r['action'] == 'kill':
                     os.kill(os.getpid(), signal.SIGKILL)
@@ -93,7 +100,7 @@ def _install(rules, root):
         def patched(*a, **k):
             hit = any(under(x) for x in a[:nargs])
             if hit:
-                fire(fn, 'before')
+                fire(fn, 'before', a[:nargs])
             res = orig(*a, **k)
             if hit:
                 fire(fn, 'after')
@@ -101,11 +108,50 @@ def _install(rules, root):
         patched.__name__ = name
         setattr(mod, name, patched)
 
+    class BrokenScan:
+        """os.scandir's iterator / context manager that fails after `after` entries"""
+        def __init__(self, it, after, code):
+            self.it, self.left, self.code = it, after, code
+
+        def __iter__(self):
+            return self
+
+        def __next__(self):
+            if self.left == 0:
+                self.left = -1
+                raise OSError(self.code, 'injected failure in the middle of a directory scan')
+            self.left -= 1
+            return next(self.it)
+
+        def __enter__(self):
+            return self
+
+        def __exit__(self, *a):
+            self.it.close()
+
+        def close(self):
+            self.it.close()
+
     wrap(os, 'replace', 'replace', 2)
     wrap(os, 'rename', 'replace', 2)
     wrap(os, 'unlink', 'unlink')
     wrap(os, 'remove', 'unlink')
     wrap(os, 'scandir', 'scandir')
+    counted_scandir = os.scandir
+    scans = [0]
+
+    def scandir(*a, **k):
+        res = counted_scandir(*a, **k)
+        if a and under(a[0]):
+            idx = scans[0]
+            scans[0] += 1
+            for r in rules:
+                if r['fn'] == 'scandir_iter' and r['k'] == idx:
+                    return BrokenScan(res, r['after'], getattr(errno, r['action']))
+        return res
+    os.scandir = scandir
+    import pathlib
+    wrap(pathlib.Path, 'read_bytes', 'read')
     orig_ntf = tempfile.NamedTemporaryFile
 
     def ntf(*a, **k):
